@@ -497,3 +497,8 @@ for _id in ("C02", "C03", "C04", "C07", "C12", "C15"):
     PROPS[_id]["rule"] += "; row misc1 (AUTO_SHRINK=0, ENABLE_ALIGNMENT=0, DEFAULT_NESTING_LIMIT=4, exponentiation thresholds 1e5 / 1e-3)"
 PROPS["C03"]["rule"] += "; the options are passed in every documented form (none = default limit, limit alone, filter alone, both in either order)"
 PROPS["C04"]["rule"] += "; references are also obtained through iterators (begin()/++, JsonPair::value()); raw values are given as std::string, const char*, char* and (pointer, size)"
+# (no USE_LONG_LONG=0 row for C08: on this LP64 host `long` has 64 bits while the storage has 32, and the pinned tree
+#  already writes integral doubles beyond 32 bits as 0 there; a real target of that configuration has a 32-bit long)
+PROPS["C02"]["rule"] += "; a writer with a byte budget (count = bytes it accepted, stored bytes = that prefix); unbound sources (serialize as null, measure agrees)"
+PROPS["C08"]["rule"] += "; a writer with a byte budget; unbound source"
+PROPS["C15"]["rule"] += "; the limit is given before or after the filter, or left out when it equals the configured default; row misc1 (DEFAULT_NESTING_LIMIT=4)"
